@@ -7,6 +7,7 @@ Cmds == <<
   C("cpp_member", <<"@", "C", "int">>),
   C("cpp_constructor", <<"@", "C">>),
   C("function", <<"${@}", "self", "a">>),
+  C("function", <<"@", "self">>),         \* an implementing definition may also be named literally
   C("endfunction", <<>>),
   C("ct_add_test", <<"NAME", "@">>),
   C("ct_add_section", <<"NAME", "@", "EXPECTFAIL">>),
